@@ -1340,6 +1340,13 @@ def getslice(ex, st, ref, lo, hi, step):
             return
         yield st, str_slice(v, lo, hi, st)
         return
+    if isinstance(v, SV) and isinstance(v.sort, tuple) and v.sort[0] == "opt":
+        for st1, w in ex.narrow(st, v):
+            if w is None:
+                yield ex.raise_(st1, "TypeError")
+            else:
+                yield from getslice(ex, st1, w, lo, hi, step)
+        return
     if isinstance(v, Obj) and v.tuple_fields is not None:
         v = tuple(v.fields[k] for k in v.tuple_fields)
     if isinstance(v, (PList, tuple, EagerGen)):
